@@ -37,9 +37,14 @@ Print Assumptions C01_prec_table_is_spec.
    expression that ENDS in a slice must not be followed by whitespace; for the
    corrected parseSlice the theorem holds without it (…_fixed below).
 
-   _partial: function calls inside parentheses "(f a b)" and array / map literals
-   as operands are in the model and in the correspondence run, but not in the
-   grammar this theorem quantifies over. *)
+   Round 8: the grammar now contains calls in parentheses "(f a1 ... an)" and
+   array literals "[e1 ... en]" (Lay_call, Lay_arr): arguments / elements are
+   derivations themselves (arbitrarily nested), separated by whitespace and
+   rendered tight, with optional whitespace just inside the brackets.
+
+   _partial: map literals "{k:e ...}" and array literals spread over several
+   lines (newlines / comments between elements) are in the model and in the
+   correspondence run, but not in the grammar this theorem quantifies over. *)
 Theorem C01_prec_pratt_parses_layered_grammar_partial :
   forall E l st rest0 fuel,
   no_tyerr E -> Lay 0 l -> atoms_ok E l -> layout_ok l = true ->
@@ -300,4 +305,51 @@ Example C01_prec_ex_postfix_parse :
     TBin T_ASTERISK (TUn T_MINUS (TIndex (TVar (s_ "arr")) (TBin T_PLUS (TVar (s_ "a")) (TNum (s_ "1")))))
                     (TDot (TVar (s_ "b")) (s_ "k")) /\
   tree_of ex_post2 = TSlice (TAssert (TVar (s_ "c")) (Some (TyArr TyNum))) None (Some (TNum (s_ "1"))).
+Proof. vm_compute. repeat split; reflexivity. Qed.
+
+(* ---------- round 8: calls in parentheses and array literals inside derivations ---------- *)
+Definition env_calls : env :=
+  {| e_funcs := [(s_ "f", false); (s_ "g", false); (s_ "print", false)]; e_vars := [s_ "a"; s_ "b"];
+     e_arity := [(s_ "f", Some 2); (s_ "g", Some 1)]; e_tyerr := fun _ _ _ => false; e_fix_slice := true |}.
+
+(*  (f a[0] -b)*[1 (g 2)][0]   with w = false (a tight layout), and
+    ( f a[0] -b ) * [ 1 (g 2 ) ][ 0 ]   with w = true (a free layout) *)
+Definition ex_args : list lexp :=
+  [LIndex (LAtom (AVar (s_ "a")) false) false (LAtom (ANum (s_ "0")) false) false; LUn UNeg (LAtom (AVar (s_ "b")) false)].
+Definition ex_arr (w : bool) : lexp :=
+  LArr w [LAtom (ANum (s_ "1")) false; LCall false (s_ "g") [LAtom (ANum (s_ "2")) false] w false] w false.
+Definition ex_cl (w : bool) : lexp :=
+  LBin BMul (LCall w (s_ "f") ex_args w w) w (LIndex (ex_arr w) w (LAtom (ANum (s_ "0")) w) false).
+
+Example C01_prec_ex_call_lay :
+  forall w, Lay 0 (ex_cl w) /\ atoms_ok env_calls (ex_cl w) /\ layout_ok (ex_cl w) = true.
+Proof.
+  intro w. split; [|split].
+  - apply (Lay_0_of 6). apply (Lay_bin BMul).
+    + apply (Lay_le 6 8); [repeat constructor|]. apply Lay_call. intros a [<-|[<-|[]]].
+      * apply (Lay_0_of 8). apply Lay_index; [apply Lay_atom|apply Lay_atom_any; repeat constructor].
+      * apply (Lay_0_of 7). apply Lay_un. apply Lay_atom_any; repeat constructor.
+    + apply (Lay_up 7). apply Lay_index.
+      * apply Lay_arr. intros a [<-|[<-|[]]].
+        -- apply Lay_atom_any; repeat constructor.
+        -- apply (Lay_0_of 8). apply Lay_call. intros a [<-|[]]. apply Lay_atom_any; repeat constructor.
+      * apply Lay_atom_any; repeat constructor.
+  - destruct w; vm_compute; repeat split; intros; try discriminate; auto.
+  - destruct w; reflexivity.
+Qed.
+
+Example C01_prec_ex_call_parse :
+  tight_ok (ex_cl false) = true /\ tight_ok (ex_cl true) = false /\
+  (* free: x := ( f a[0] -b ) * [ 1 (g 2 ) ][ 0 ] *)
+  (let toks := tk T_IDENT "x" :: mk T_WS :: mk T_DECLARE :: mk T_WS :: render (ex_cl true) ++ [mk T_NL] in
+   option_map fst (parse_stmt_expr env_calls (2 * List.length toks + 10) 2 toks) = Some (Some (tree_of (ex_cl true)))) /\
+  (* tight: print (f a[0] -b)*[1 (g 2)][0] (f a[0] -b)*[1 (g 2)][0] — two arguments *)
+  (let toks := tk T_IDENT "print" :: mk T_WS :: render (ex_cl false) ++ mk T_WS :: render (ex_cl false) ++ [mk T_NL] in
+   option_map fst (parse_stmt_expr env_calls (2 * List.length toks + 10) 0 toks) =
+     Some (Some (TCall (s_ "print") [tree_of (ex_cl false); tree_of (ex_cl false)]))) /\
+  tree_of (ex_cl true) = tree_of (ex_cl false) /\
+  tree_of (ex_cl false) =
+    TBin T_ASTERISK
+      (TGroup (TCall (s_ "f") [TIndex (TVar (s_ "a")) (TNum (s_ "0")); TUn T_MINUS (TVar (s_ "b"))]))
+      (TIndex (TArr [TNum (s_ "1"); TGroup (TCall (s_ "g") [TNum (s_ "2")])]) (TNum (s_ "0"))).
 Proof. vm_compute. repeat split; reflexivity. Qed.
